@@ -31,7 +31,10 @@ import (
 	"verifshim/simhook"
 )
 
-type P struct{ env *core.Env }
+type P struct {
+	env  *core.Env
+	prev string // previous input of the current history (variants are derived from it)
+}
 
 func New() core.Property { return &P{} }
 
@@ -70,7 +73,21 @@ func instancePools(pi *simhook.PoolInfo) bool {
 		strings.Contains(pi.Site, "parser/parser.go")
 }
 
+// histInput draws the next input of a history; now and then it is a variant of
+// the previous one (same shape, one word different).
 func (p *P) histInput(g gen.G) string {
+	if p.prev != "" && g.S.Intn(5, "c08.variant") == 4 {
+		if v, ok := g.Variant(p.prev); ok {
+			p.prev = v
+			return v
+		}
+	}
+	x := p.histInput1(g)
+	p.prev = x
+	return x
+}
+
+func (p *P) histInput1(g gen.G) string {
 	switch g.S.Intn(9, "c08.in") {
 	case 8:
 		// one of the probe inputs itself: same text, same number of tokens as a later probe
@@ -90,11 +107,14 @@ func (p *P) histInput(g gen.G) string {
 
 func (p *P) Run(src *tape.Source, trace bool) *core.Result {
 	r := core.NewResult()
+	p.prev = ""
 	simhook.PurgeAll()
 	ctl := &pool.Ctl{S: src, Mode: pool.AlwaysMiss}
 	ctl.Install()
 	defer pool.Uninstall()
-	switch src.Intn(5, "c08.target") {
+	switch src.Intn(6, "c08.target") {
+	case 5:
+		p.alignedRun(r, src, trace)
 	case 0, 1:
 		p.parserRun(r, src, ctl, trace)
 	case 2, 3:
@@ -108,6 +128,103 @@ func (p *P) Run(src *tape.Source, trace bool) *core.Result {
 	ctl.Counts(r.Faults)
 	r.LogHash = src.Hash()
 	return r
+}
+
+// ------------------------------------------------------------------ cancellation between two tokens, then a sibling input
+
+// alignedRun: the tokenizer polls the context once per 100 tokens, so a
+// cancellation always lands between two particular tokens. Here that boundary
+// is moved across a statement: padding statements are put in front of a
+// feature statement so that its t-th token is the 100th (or 200th) of the
+// input, the call is cancelled at that poll, and the instance then tokenizes a
+// SIBLING input - the same text with the word after the boundary shortened (so
+// an identifier starts at the very offset where the interrupted call stopped
+// looking). Each call is compared with the same call on a fresh instance.
+func (p *P) alignedRun(r *core.Result, src *tape.Source, trace bool) {
+	feats := gen.Features()
+	f := feats[src.Intn(len(feats), "c08.alignfeat")]
+	ft, _ := tokenizer.New()
+	ftoks, err := ft.Tokenize([]byte(f))
+	if err != nil || len(ftoks) < 4 || strings.Contains(f, "\n") {
+		return
+	}
+	t := 1 + src.Intn(len(ftoks)-2, "c08.aligntok") // 1-based index of the feature token that becomes token #boundary
+	boundary := 100 * (1 + src.Intn(2, "c08.alignboundary"))
+	need := boundary - t
+	// padding: a x "SELECT 1;" (3 tokens) + b x "SELECT 1, 1;" (5 tokens)
+	a, b := -1, 0
+	for b = 0; b < 3; b++ {
+		if (need-5*b) >= 0 && (need-5*b)%3 == 0 {
+			a = (need - 5*b) / 3
+			break
+		}
+	}
+	if a < 0 {
+		return
+	}
+	pad := strings.Repeat("SELECT 1; ", a) + strings.Repeat("SELECT 1, 1; ", b)
+	x := pad + f
+	// the sibling: the word after the boundary token reduced to its first byte
+	y, y2 := "", ""
+	if t < len(ftoks)-1 {
+		nx := ftoks[t] // 0-based index t = the token after the t-th
+		if nx.Start.Line == 1 && nx.End.Line == 1 && nx.End.Column-nx.Start.Column > 1 && nx.Start.Column >= 1 && nx.End.Column-1 <= len(f) {
+			y = pad + f[:nx.Start.Column] + f[nx.End.Column-1:]
+			// second sibling: additionally the boundary token itself is replaced by a
+			// plain identifier of the same length (offsets unchanged), so that the
+			// sibling does not redo whatever the boundary token made the scanner do
+			if bt := ftoks[t-1]; bt.Start.Line == 1 && bt.End.Line == 1 && bt.End.Column > bt.Start.Column && bt.End.Column <= nx.Start.Column {
+				y2 = pad + f[:bt.Start.Column-1] + strings.Repeat("z", bt.End.Column-bt.Start.Column) + f[bt.End.Column-1:nx.Start.Column] + f[nx.End.Column-1:]
+			}
+		}
+	}
+	cfg := probe.TokCfg{}
+	tk, _ := tokenizer.New()
+	if src.Intn(2, "c08.alignpooled") == 1 {
+		tk = tokenizer.GetTokenizer()
+	}
+	E := []error{context.Canceled, context.DeadlineExceeded}[src.Intn(2, "c08.cerr")]
+	// which poll follows token #boundary depends on whether the loop also polls
+	// before the first token: both numberings are tried
+	fire := boundary/100 + src.Intn(2, "c08.alignpoll")
+	ctx := simctx.New(fire, E)
+	_, cerr := tk.TokenizeContext(ctx, []byte(x))
+	r.Tracef(trace, fmt.Sprintf("t.TokenizeContext(fire@%d, %q) -> err=%v   // feature token %d is token #%d", fire, clip(x[len(pad):]), cerr != nil, t, boundary))
+	if !ctx.Fired() {
+		return
+	}
+	r.Faults["history.cancelled-between-two-tokens"]++
+	r.Nontrivial = true
+	how := src.Intn(3, "c08.alignnext")
+	if how == 1 {
+		tk.Reset()
+	} else if how == 2 {
+		tokenizer.PutTokenizer(tk)
+		ctl := &pool.Ctl{S: src, Mode: pool.HitNewest}
+		ctl.Install()
+		tk = tokenizer.GetTokenizer()
+		ctl.Mode = pool.AlwaysMiss
+	}
+	first := []string{y, y2}
+	if src.Intn(2, "c08.alignsib") == 1 {
+		first = []string{y2, y}
+	}
+	for _, in := range append(first, x, f) {
+		if in == "" {
+			continue
+		}
+		toks, e1 := tk.Tokenize([]byte(in))
+		fr := probe.FreshTokenizer(cfg)
+		ftk, e2 := fr.Tokenize([]byte(in))
+		used := "tokens=" + canon.Of(toks) + " err=" + canon.Err(e1) + " comments=" + canon.Of(tk.Comments)
+		fresh := "tokens=" + canon.Of(ftk) + " err=" + canon.Err(e2) + " comments=" + canon.Of(fr.Comments)
+		r.Evals++
+		if used != fresh {
+			r.Fail("tokenizer-like-fresh", "after=cancelled-between-two-tokens entry=Tokenize part="+probe.Part(used, fresh),
+				fmt.Sprintf("after TokenizeContext was cancelled (%v) at the poll following token #%d of %q (then %s), Tokenize(%q) differs from a fresh tokenizer: %s", E, boundary, clip(x[len(pad):]), []string{"directly", "Reset", "Put+Get"}[how], clip(in[len(in)-min(len(in), 60):]), canon.Diff(used, fresh)))
+			return
+		}
+	}
 }
 
 // ------------------------------------------------------------------ tokenizer
@@ -157,7 +274,17 @@ func (p *P) tokenizerRun(r *core.Result, src *tape.Source, ctl *pool.Ctl, trace 
 		switch k := src.Intn(10, "c08.top"); {
 		case k <= 2:
 			x := p.histInput(g)
-			_, err := t.Tokenize([]byte(x))
+			toks, err := t.Tokenize([]byte(x))
+			// the call itself is compared with the same call on a fresh instance
+			ft := probe.FreshTokenizer(cfg)
+			ftoks, ferr := ft.Tokenize([]byte(x))
+			used := "tokens=" + canon.Of(toks) + " err=" + canon.Err(err) + " comments=" + canon.Of(t.Comments)
+			fresh := "tokens=" + canon.Of(ftoks) + " err=" + canon.Err(ferr) + " comments=" + canon.Of(ft.Comments)
+			r.Evals++
+			if used != fresh && len(r.Violations) == 0 {
+				r.Fail("tokenizer-like-fresh", "after=history-call entry=Tokenize part="+probe.Part(used, fresh),
+					fmt.Sprintf("after history [%s] the call t.Tokenize(%q) differs from the same call on a fresh tokenizer configured %+v: %s", kinds, clip(x), cfg, canon.Diff(used, fresh)))
+			}
 			kinds += "Tokenize "
 			r.Tracef(trace, fmt.Sprintf("t.Tokenize(%q) -> err=%v", clip(x), err != nil))
 			if calls > 0 {
@@ -176,7 +303,18 @@ func (p *P) tokenizerRun(r *core.Result, src *tape.Source, ctl *pool.Ctl, trace 
 			} else {
 				ctx = simctx.New(fire, []error{context.Canceled, context.DeadlineExceeded}[src.Intn(2, "c08.cerr")])
 			}
-			_, err := t.TokenizeContext(ctx, []byte(x))
+			toks, err := t.TokenizeContext(ctx, []byte(x))
+			if fire < 0 {
+				ft := probe.FreshTokenizer(cfg)
+				ftoks, ferr := ft.TokenizeContext(simctx.Never(), []byte(x))
+				used := "tokens=" + canon.Of(toks) + " err=" + canon.Err(err) + " comments=" + canon.Of(t.Comments)
+				fresh := "tokens=" + canon.Of(ftoks) + " err=" + canon.Err(ferr) + " comments=" + canon.Of(ft.Comments)
+				r.Evals++
+				if used != fresh && len(r.Violations) == 0 {
+					r.Fail("tokenizer-like-fresh", "after=history-call entry=TokenizeContext part="+probe.Part(used, fresh),
+						fmt.Sprintf("after history [%s] the call t.TokenizeContext(%q) differs from the same call on a fresh tokenizer configured %+v: %s", kinds, clip(x), cfg, canon.Diff(used, fresh)))
+				}
+			}
 			kinds += "TokenizeContext "
 			r.Tracef(trace, fmt.Sprintf("t.TokenizeContext(fire@%d, %q) -> err=%v", fire, clip(x), err != nil))
 			if ctx.Fired() {
@@ -367,13 +505,22 @@ func (p *P) parserRun(r *core.Result, src *tape.Source, ctl *pool.Ctl, trace boo
 			}
 			var err error
 			var name string
+			// every call of the history is itself compared with the same call on a
+			// fresh instance carrying the holder's configuration (not only the probe
+			// battery afterwards): what an earlier input left behind may matter only
+			// for an input of the same shape
+			var call func(q *parser.Parser) string
 			switch k {
 			case 0:
 				name = "ParseFromModelTokens"
-				_, err = ps.ParseFromModelTokens(toks)
+				call = func(q *parser.Parser) string { a, e := q.ParseFromModelTokens(toks); err = e; return treeCanon(a, e) }
 			case 1:
 				name = "ParseFromModelTokensWithPositions"
-				_, err = ps.ParseFromModelTokensWithPositions(toks)
+				call = func(q *parser.Parser) string {
+					a, e := q.ParseFromModelTokensWithPositions(toks)
+					err = e
+					return treeCanon(a, e)
+				}
 			case 2, 3:
 				fire := src.Intn(8, "c08.fire") - 1
 				var ctx *simctx.Ctx
@@ -389,9 +536,13 @@ func (p *P) parserRun(r *core.Result, src *tape.Source, ctl *pool.Ctl, trace boo
 				}
 			case 4:
 				name = "ParseWithRecoveryFromModelTokens"
-				_, errs := ps.ParseWithRecoveryFromModelTokens(toks)
-				if len(errs) > 0 {
-					err = errs[0]
+				call = func(q *parser.Parser) string {
+					stmts, errs := q.ParseWithRecoveryFromModelTokens(toks)
+					err = nil
+					if len(errs) > 0 {
+						err = errs[0]
+					}
+					return "stmts=" + canon.Of(stmts) + " errs=" + canon.Of(errs)
 				}
 			default:
 				// entry points taking parser tokens: obtainable for accepted inputs only
@@ -404,13 +555,26 @@ func (p *P) parserRun(r *core.Result, src *tape.Source, ctl *pool.Ctl, trace boo
 				switch k {
 				case 5:
 					name = "Parse"
-					_, err = ps.Parse(ptoks)
+					call = func(q *parser.Parser) string { a, e := q.Parse(ptoks); err = e; return treeCanon(a, e) }
 				case 6:
 					name = "ParseContext"
 					_, err = ps.ParseContext(simctx.New(src.Intn(6, "c08.fire"), context.Canceled), ptoks)
 				default:
 					name = "ParseWithPositions"
-					_, err = ps.ParseWithPositions(conversion(ptoks, toks))
+					call = func(q *parser.Parser) string {
+						a, e := q.ParseWithPositions(conversion(ptoks, toks))
+						err = e
+						return treeCanon(a, e)
+					}
+				}
+			}
+			if call != nil {
+				fresh := call(probe.FreshParser(cfg))
+				used := call(ps)
+				r.Evals++
+				if used != fresh && len(r.Violations) == 0 {
+					r.Fail("parser-like-fresh", fmt.Sprintf("after=history-call entry=%s part=%s", name, probe.Part(used, fresh)),
+						fmt.Sprintf("after history [%s] the call p.%s(%q) differs from the same call on a fresh parser configured %+v: %s", kinds, name, clip(x), cfg, canon.Diff(used, fresh)))
 				}
 			}
 			kinds += strings.SplitN(name, "(", 2)[0] + " "
